@@ -118,7 +118,7 @@ assert TEXT_RAGGED != TEXT
 
 
 def _text(variant):
-    return {"plain-names": TEXT_PLAIN_NAMES, "ragged": TEXT_RAGGED}.get(variant, TEXT)
+    return {"plain-names": TEXT_PLAIN_NAMES, "ragged": TEXT_RAGGED, "hist": TEXT_HIST}.get(variant, TEXT)
 
 
 def row_lines(text):
@@ -215,7 +215,10 @@ def h_expand(sx):
     return "ok"
 
 
-OPS = ["add_row:0", "add_row:1", "add_column:0", "add_column:1", "clear:0", "clear:1", "remove_column:0", "access", "none"]
+OPS = ["add_row:0", "add_row:1", "add_column:0", "add_column:1", "clear:0", "clear:1", "remove_column:0", "access", "none", "add_row_obj:0"]
+# the history harness uses a template that also names a column which only exists after add_column("new")
+TEXT_HIST = TEXT.replace("    Then no placeholder here", "    Then no placeholder here but <new>")
+assert TEXT_HIST != TEXT
 
 
 TAG_TEXT = u'''Feature: F
@@ -282,7 +285,8 @@ def h_untagged_outline(sx):
 
 def h_history(sx):
     """After the examples tables are modified through the table API the expansion is rebuilt."""
-    f, outline = _parse()
+    from behave.model import Row
+    f, outline = _parse("hist")
     n = sx.params["n"]
     first = outline.scenarios          # first expansion (as tag selection or a hook would trigger)
     hist = []
@@ -291,12 +295,15 @@ def h_history(sx):
         op = OPS[c if isinstance(c, int) else c.concretize()]
         hist.append(op)
         kind, _, arg = op.partition(":")
-        if kind in ("add_row", "add_column", "clear", "remove_column"):
+        if kind in ("add_row", "add_row_obj", "add_column", "clear", "remove_column"):
             table = outline.examples[int(arg)].table
             if kind == "add_row":
                 table.add_row([u"N%d%s" % (i, h) for h in table.headings])
+            elif kind == "add_row_obj":
+                # a Row object that comes from elsewhere (rows of another table, Row(names, cells)): equal headings, own list
+                table.add_row(Row(list(table.headings), [u"R%d%s" % (i, h) for h in table.headings]))
             elif kind == "add_column":
-                name = u"new%d" % i
+                name = u"new"
                 if not table.has_column(name):
                     table.add_column(name, values=[u"v%d" % k for k in range(len(table.rows))])
             elif kind == "clear":
